@@ -1496,7 +1496,7 @@ func areaGNames(c *Ctx) {
 	gnEmit(c, "glyf", 5, []string{".notdef", "A", "a", "", ""}, "kind=glyf n=5 nn=5 names=2e6e6f74646566,41,61,, cmap=- fu= gsub=s2:2-1,1-0:3,3", true, false)
 	gnEmit(c, "glyf", 5, []string{".notdef", "a", "", "", ""}, "kind=glyf n=5 nn=5 names=2e6e6f74646566,61,,, cmap=- fu= gsub=s2:2-1,1-0:2,3", true, false)
 	// Macintosh-only cmap, format 0: 0x8A adieresis, 0xA5 bullet, 0xDE fi
-	gnEmit(c, "glyf", 4, nil, "kind=glyf n=4 nn=0 names= cmap=138:1,165:2,222:3 mac=0 fu=228:616469657265736973,8226:62756c6c6574,64257:6669 gsub=", true, false)
+	gnEmit(c, "glyf", 4, nil, "kind=glyf n=4 nn=0 names= cmap=138:1,165:2,222:3 mac=0 fu=228:616469657265736973,8226:62756c6c6574,64257:665f69 gsub=", true, false)
 	// the cmap is the only naming source: a single entry; first and last code of the range
 	gnEmit(c, "glyf", 2, nil, "kind=glyf n=2 nn=0 names= cmap=65:1 fu=65:41 gsub=", true, false)
 	gnEmit(c, "glyf", 4, nil, "kind=glyf n=4 nn=0 names= cmap=65:2,66:1,67:3 fu=65:41,66:42,67:43 gsub=", true, false)
